@@ -3,6 +3,6 @@ import pytest
 
 @pytest.fixture
 def ed0_fix():
-    """DOC14"""
-    return 14
+    """DOC5"""
+    return 5
 
